@@ -18,7 +18,7 @@ import fcntl, hashlib, json, os, re, subprocess, sys, time, shutil
 VERIF = os.path.dirname(os.path.dirname(os.path.abspath(__file__)))
 LEAN = os.path.join(VERIF, "lean")
 HARNESS = os.path.join(VERIF, "harness")
-BUILD = os.path.join(VERIF, "build")
+BUILD = os.environ.get("VERIF_BUILD") or os.path.join(VERIF, "build")
 REPO = os.environ.get("VERIF_REPO", "/repo")
 ALLOWED_AXIOMS = {"propext", "Classical.choice", "Quot.sound"}
 FORBIDDEN = re.compile(r"\b(sorry|admit|native_decide|bv_decide|implemented_by)\b|^\s*axiom\s|^\s*unsafe\s|maxHeartbeats\s+0\b", re.M)
@@ -113,8 +113,8 @@ def run_extractor():
     return {"ran": rc == 0, "error": None if rc == 0 else out[-2000:]}
 
 
-def lean_build(modules, need_driver=True):
-    targets = list(modules) + (["ibcmodel"] if need_driver else [])
+def lean_build(modules, drivers=("ibcmodel",)):
+    targets = list(modules) + list(drivers)
     with Lock("lake"):
         rc, out = run(["lake", "build"] + targets, cwd=LEAN, timeout=3600)
     broken = []
@@ -176,6 +176,19 @@ def audit(pid, modules):
             "ok": rc == 0 and not dirty and not bad_tokens, "raw": out if rc != 0 else ""}
 
 
+def _modfile_args():
+    """When VERIF_REPO points at a scratch worktree (mutation testing), build against it through an
+    alternate go.mod so that /verif/harness/go.mod (which names /repo) stays untouched."""
+    if REPO == "/repo":
+        return []
+    alt = os.path.join(BUILD, "alt.mod")
+    src = open(os.path.join(HARNESS, "go.mod")).read().replace("=> /repo\n", "=> %s\n" % REPO)
+    if not os.path.exists(alt) or open(alt).read() != src:
+        open(alt, "w").write(src)
+        shutil.copyfile(os.path.join(REPO, "go.sum"), os.path.join(BUILD, "alt.sum"))
+    return ["-modfile", alt]
+
+
 _built = set()
 def go_build(cmdname):
     exe = os.path.join(BUILD, cmdname)
@@ -191,14 +204,14 @@ def go_build(cmdname):
     except OSError:
         pass
     with Lock("go"):
-        rc, out = run(["go", "build", "-tags", "verif", "-o", exe, "./cmd/" + cmdname], cwd=HARNESS, env=GOENV, timeout=3600)
+        rc, out = run(["go", "build"] + _modfile_args() + ["-tags", "verif", "-o", exe, "./cmd/" + cmdname], cwd=HARNESS, env=GOENV, timeout=3600)
     if rc == 0:
         _built.add(cmdname)
     return rc == 0, exe, out
 
 
-def run_model(engine, in_path, out_path):
-    exe = os.path.join(LEAN, ".lake", "build", "bin", "ibcmodel")
+def run_model(engine, in_path, out_path, exe_name="ibcmodel"):
+    exe = os.path.join(LEAN, ".lake", "build", "bin", exe_name)
     with open(in_path, "rb") as fi, open(out_path, "wb") as fo:
         p = subprocess.run([exe, engine], stdin=fi, stdout=fo, stderr=subprocess.PIPE, timeout=3600)
     return p.returncode, p.stderr.decode("utf-8", "replace")
